@@ -28,6 +28,9 @@ impl Default for C13 {
             "implication_checked",
             "implication_checked_with_emode",
             "kill_attempt_rejected",
+            "staked_bank_added_permissionlessly",
+            "staked_settings_propagated",
+            "staked_settings_propagated_new_weights",
         ]);
         C13 { cov, counter: 0 }
     }
@@ -144,7 +147,7 @@ impl Monitor for C13 {
         let idx = s.event_index;
         if let Err(e) = &s.out.result {
             if let Some(ix) = s.tx.ixs.get(e.ix_index) {
-                if ix.tag.starts_with("configure_bank") || ix.tag.starts_with("add_bank") || ix.tag == "clone_emode" {
+                if ix.tag.starts_with("configure_bank") || ix.tag.starts_with("add_bank") || ix.tag == "clone_emode" || ix.tag.ends_with("staked_settings") {
                     match e.code {
                         6015 => self.cov.probe("rejected_invalid_config"),
                         6075 => self.cov.probe("rejected_bad_emode"),
@@ -175,7 +178,8 @@ impl Monitor for C13 {
                 }
             }
             let bk = match ix.tag {
-                "add_bank" | "add_bank_with_seed" => ix.accounts.get(6).map(|m| m.pubkey),
+                "add_bank" | "add_bank_with_seed" | "add_bank_permissionless" => ix.accounts.get(6).map(|m| m.pubkey),
+                "propagate_staked_settings" => ix.accounts.get(2).map(|m| m.pubkey),
                 "clone_emode" => ix.accounts.get(3).map(|m| m.pubkey),
                 "configure_bank" | "configure_bank_interest_only" | "configure_bank_limits_only" | "configure_bank_emode" => ix_bank(ix),
                 _ => None,
@@ -185,7 +189,7 @@ impl Monitor for C13 {
             let Some(group) = model::group_of(b, &post.group) else { continue };
             let pre = model::bank_of(a, &bk);
             judged_config = true;
-            let sets_weights = matches!(ix.tag, "add_bank" | "add_bank_with_seed" | "configure_bank");
+            let sets_weights = matches!(ix.tag, "add_bank" | "add_bank_with_seed" | "add_bank_permissionless" | "configure_bank" | "propagate_staked_settings");
             let sets_emode = matches!(ix.tag, "configure_bank_emode" | "clone_emode");
             let changed = pre.map(|p| model::bank_changed_fields(&p, &post)).unwrap_or_default();
             let weights_changed = changed.iter().any(|f| f.starts_with("config.") && f.contains("weight"));
@@ -200,6 +204,13 @@ impl Monitor for C13 {
             self.cov.eval(format!("{}|ok|{}|w{}", ix.tag, tight, weights_changed as u8));
             match ix.tag {
                 "add_bank" | "add_bank_with_seed" => self.cov.probe("add_bank_judged"),
+                "add_bank_permissionless" => self.cov.probe("staked_bank_added_permissionlessly"),
+                "propagate_staked_settings" => {
+                    self.cov.probe("staked_settings_propagated");
+                    if weights_changed {
+                        self.cov.probe("staked_settings_propagated_new_weights");
+                    }
+                }
                 "configure_bank" => {
                     self.cov.probe("configure_bank_judged");
                     if weights_changed && tight == "emode" {
